@@ -64,8 +64,10 @@ func (d *deduplicationStrategy) eval(
 	del := make([][]byte, 0)
 	var rewriteKeys [][]byte
 	var rewriteValues [][]byte
+	versionRemoved := false
 	// first, check if the whole entity is equal to the previous entity
 	if server.IsEntityEqual(d.prevEntityBytes, entityBytes, d.prev, e) {
+		versionRemoved = true
 		// if to be deleted... delete 5 key types for each change version:
 		// 1.delete json entry (key already in keysToDelete)
 		del = append(del, jsonKey)
@@ -135,6 +137,13 @@ func (d *deduplicationStrategy) eval(
 		if len(rewriteKeys) > 0 {
 			res.RewriteKeys = rewriteKeys
 			res.RewriteValues = rewriteValues
+		}
+		if !versionRemoved {
+			// only duplicate reference keys of this version are removed, the version itself stays:
+			// it is the predecessor the next version has to be compared with
+			d.prevJsonKey = jsonKey
+			d.prevEntityBytes = entityBytes
+			d.prev = e
 		}
 		return res, nil
 	}
